@@ -11,10 +11,14 @@ import (
 	"math/rand"
 	"net"
 	"os"
+	"sync"
+	"sync/atomic"
 	"syscall"
 	"time"
 
 	"github.com/coredhcp/coredhcp/config"
+	"github.com/coredhcp/coredhcp/handler"
+	"github.com/coredhcp/coredhcp/plugins"
 	"github.com/coredhcp/coredhcp/server"
 	"github.com/insomniacslk/dhcp/dhcpv4"
 	"github.com/insomniacslk/dhcp/dhcpv6"
@@ -39,6 +43,7 @@ func runLifecycle(args []string) error {
 	fs := flag.NewFlagSet("lifecycle", flag.ContinueOnError)
 	out := fs.String("out", "trace.ndjson", "trace file")
 	seed := fs.Int64("seed", 1, "seed")
+	mode := fs.String("mode", "life", "life | startrace")
 	if err := fs.Parse(args); err != nil {
 		return err
 	}
@@ -49,6 +54,10 @@ func runLifecycle(args []string) error {
 	defer t.Close()
 	registerBuiltin()
 	server.VerifSend4Hook, server.VerifSend6Hook, server.VerifFrameHook, server.VerifBufPutHook = nil, nil, nil, nil
+	if *mode == "startrace" {
+		runStartRace(t, *seed)
+		return nil
+	}
 	r := rand.New(rand.NewSource(*seed))
 	relay, rerr := net.ListenUDP("udp4", &net.UDPAddr{IP: net.IPv4(127, 0, 0, 1), Port: 67})
 	if rerr != nil {
@@ -231,4 +240,105 @@ func runLifecycle(args []string) error {
 	}
 	_ = syscall.EADDRINUSE
 	return nil
+}
+
+// ---- start-up order (C13): no datagram is handled before - or without - the configured chain -------------
+//
+// A synthetic plugin whose setup takes 300 ms (and, for the second configuration, then fails) is followed by
+// dns; while server.Start runs, a client sends a SOLICIT to the configured address every 2 ms. Whatever comes
+// back must have gone through the whole chain (it carries the DNS option); a configuration whose setup fails
+// must not have answered anything. With the code's order (LoadPlugins, then listen) nothing listens during the
+// window and the early SOLICITs are simply lost.
+
+var slowOnce sync.Once
+
+func registerSlow() {
+	slowOnce.Do(func() {
+		plugins.RegisterPlugin(&plugins.Plugin{Name: "syn_slow",
+			Setup6: func(args ...string) (handler.Handler6, error) {
+				time.Sleep(300 * time.Millisecond)
+				if len(args) > 0 && args[0] == "fail" {
+					return nil, fmt.Errorf("syn_slow: setup refused")
+				}
+				return func(req, resp dhcpv6.DHCPv6) (dhcpv6.DHCPv6, bool) { return resp, false }, nil
+			}})
+	})
+}
+
+func runStartRace(t *Trace, seed int64) {
+	registerSlow()
+	r := rand.New(rand.NewSource(seed))
+	for round, cfg := range []string{"ok", "fail", "ok", "fail"} {
+		port := 20000 + (r.Intn(20000)+os.Getpid()*131+round*17+4000)%20000
+		addr := net.UDPAddr{IP: net.ParseIP("::1"), Port: port}
+		conf := &config.Config{Server6: &config.ServerConfig{Addresses: []net.UDPAddr{addr}, Plugins: []config.PluginConfig{
+			{Name: "server_id", Args: []string{"LL", "00:de:ad:be:ef:00"}}, {Name: "syn_slow", Args: []string{cfg}}, {Name: "dns", Args: []string{"2001:4860:4860::8888"}}}}}
+		c6, err := net.ListenUDP("udp6", &net.UDPAddr{IP: net.ParseIP("::1")})
+		if err != nil {
+			t.Emit(Ev{"ev": "note", "what": "no client socket on ::1: " + err.Error()})
+			return
+		}
+		stop := make(chan struct{})
+		var wg sync.WaitGroup
+		var sent int32
+		wg.Add(1)
+		go func() { // the client: a SOLICIT that asks for DNS every 2 ms, from before Start until well after it returned
+			defer wg.Done()
+			for i := 0; ; i++ {
+				select {
+				case <-stop:
+					return
+				default:
+				}
+				m, _ := dhcpv6.NewSolicit(net.HardwareAddr{2, 0, 9, byte(round), byte(i >> 8), byte(i)})
+				m.AddOption(dhcpv6.OptRequestedOption(dhcpv6.OptionDNSRecursiveNameServer))
+				c6.WriteToUDP(m.ToBytes(), &addr)
+				atomic.AddInt32(&sent, 1)
+				time.Sleep(2 * time.Millisecond)
+			}
+		}()
+		replies, bare := 0, 0
+		rdone := make(chan struct{})
+		go func() {
+			defer close(rdone)
+			buf := make([]byte, 4096)
+			for {
+				n, _, err := c6.ReadFromUDP(buf)
+				if err != nil {
+					return
+				}
+				replies++
+				p, err := dhcpv6.FromBytes(buf[:n])
+				if err != nil {
+					bare++
+					continue
+				}
+				if m, err := p.GetInnerMessage(); err != nil || len(m.Options.DNS()) == 0 {
+					bare++ // a reply the configured chain did not produce
+				}
+			}
+		}()
+		time.Sleep(20 * time.Millisecond)
+		srv, serr := server.Start(conf)
+		time.Sleep(150 * time.Millisecond)
+		close(stop)
+		wg.Wait()
+		time.Sleep(100 * time.Millisecond)
+		c6.SetReadDeadline(time.Now())
+		<-rdone
+		c6.Close()
+		res := "ok"
+		if serr != nil {
+			res = "err"
+		} else {
+			srv.Close()
+			done := make(chan error, 1)
+			go func() { done <- srv.Wait() }()
+			select {
+			case <-done:
+			case <-time.After(10 * time.Second):
+			}
+		}
+		t.Emit(Ev{"ev": "startrace", "cfg": cfg, "res": res, "sent": int(atomic.LoadInt32(&sent)), "replies": replies, "bare": bare})
+	}
 }
